@@ -276,15 +276,16 @@ Qed.
 
 (** * hooks *)
 
-Lemma mint_begin_block_keeps s s' : mint_begin_block s = Ok s' -> keeps [GMint] s s'.
+Lemma mint_loop_keeps l : forall s s', mint_loop l s = Ok s' -> keeps [GMint] s s'.
 Proof.
-  unfold mint_begin_block.
-  generalize (map snd (sort_by (fun x y => Z.compare x.1 y.1) (map_to_list (inflations s)))).
-  intros l. revert s. induction l as [|it l IH]; intros s H.
+  induction l as [|it l IH]; intros s s' H; simpl in H.
   - injection H as <-. apply keeps_refl.
   - destruct (now s <? inf_ts it); [injection H as <-; apply keeps_refl|].
-    res_inv. apply IH in H. eapply keeps_trans; [|exact H]. keeps_solve.
+    res_inv. apply IH in H. eapply keeps_trans; [|exact H]. unfold mint_apply. keeps_solve.
 Qed.
+
+Lemma mint_begin_block_keeps s s' : mint_begin_block s = Ok s' -> keeps [GMint] s s'.
+Proof. apply mint_loop_keeps. Qed.
 
 Lemma payout_step_keeps s e s' : payout_step s e = Ok s' -> keeps [GBank; GDep; GSub] s s'.
 Proof. unfold payout_step. intros H. res_inv; pose_keeps; keeps_solve. Qed.
